@@ -178,8 +178,65 @@ def check_saturation(prog, rep, qual='act_two.accuracy'):
                     hi = True           # exponent bounded above
                 if oc in (ast.GtE, ast.Gt) and _num(rn) < 0:
                     lo = True           # exponent bounded below
+            # other spellings of the two bounds: a bound that is a name (a
+            # module-level constant), abs(x) <= c, a chained -c <= x <= c
+            _NEG = {ast.Lt: ast.GtE, ast.LtE: ast.Gt, ast.Gt: ast.LtE,
+                    ast.GtE: ast.Lt}
+            _FLIP = {ast.Lt: ast.Gt, ast.LtE: ast.GtE, ast.Gt: ast.Lt,
+                     ast.GtE: ast.LtE}
+            ex_names = {x.id for x in ast.walk(node.right)
+                        if isinstance(x, ast.Name)}
+            mentioned = False
+
+            def _is_bound(x):
+                return _num(x) is not None or isinstance(x, ast.Name) or (
+                    isinstance(x, ast.UnaryOp) and
+                    isinstance(x.op, ast.USub) and
+                    isinstance(x.operand, ast.Name))
+
+            def _neg_bound(x):
+                n_ = _num(x)
+                if n_ is not None:
+                    return n_ < 0
+                return isinstance(x, ast.UnaryOp)
+            for t, pol in paths.guard_atoms(gs):
+                if ex_names & {x.id for x in ast.walk(t)
+                               if isinstance(x, ast.Name)}:
+                    mentioned = True
+                if not isinstance(t, ast.Compare):
+                    continue
+                opnds = [t.left] + list(t.comparators)
+                for i_, op_ in enumerate(t.ops):
+                    a_, b_ = opnds[i_], opnds[i_ + 1]
+                    oc = type(op_)
+                    if oc not in _NEG:
+                        continue
+                    if not pol:
+                        if len(t.ops) > 1:
+                            continue    # negated chain: a disjunction
+                        oc = _NEG[oc]
+                    for x_, y_, o_ in ((a_, b_, oc), (b_, a_, _FLIP[oc])):
+                        # x_ o_ y_  with x_ the exponent (or its modulus)
+                        is_abs = isinstance(x_, ast.Call) and \
+                            (prog.dotted(x_.func) or '').split('.')[-1] in (
+                                'abs', 'fabs', 'absolute') and x_.args and \
+                            ast.dump(x_.args[0]) == dex
+                        if not (ast.dump(x_) == dex or is_abs) or \
+                                not _is_bound(y_):
+                            continue
+                        if is_abs and o_ in (ast.Lt, ast.LtE):
+                            hi = lo = True
+                        elif not is_abs and o_ in (ast.Lt, ast.LtE) and \
+                                not _neg_bound(y_):
+                            hi = True
+                        elif not is_abs and o_ in (ast.Gt, ast.GtE) and \
+                                _neg_bound(y_):
+                            lo = True
+            # no dominating test mentions the exponent at all: the guard is
+            # gone (violation); mentioned but not recognised: not decided
             rep.add('P-sat', qual, paths.src(mod, node),
-                    'ok' if hi and lo else 'violation',
+                    'ok' if hi and lo else ('unknown' if mentioned
+                                            else 'violation'),
                     '' if hi and lo else 'the power 2**(%s) is not dominated '
                     'by both saturation guards (%s > c and %s < -c): '
                     'OverflowError / inf for far apart exponents' % (ex, ex, ex),
